@@ -162,6 +162,14 @@ def check_sequences(res: Result, seqs, roundtrip_every):
                 res.violation({"clause": "rust_runtime_named_api", "written": name, "wrong": bad[:4]}, case,
                               {"step": i, "value": val, "got": rs2, "want": want})
                 break
+            fa = rout.get("flag_after", [None] * (i + 1))[i]
+            if fa is not None:
+                # the by-name flag API of the runtime (set_flag/get_flag) must truncate and alias like everything else
+                if fa["regs"] != want or fa["fc"] != ref.get("FC") or fa["fz"] != ref.get("FZ"):
+                    bad = [NAMES[k] for k in range(14) if fa["regs"][k] != want[k]]
+                    res.violation({"clause": "rust_runtime_flag_api", "written": name, "wrong": bad[:4]}, case,
+                                  {"step": i, "value": val, "got": fa, "want": want})
+                    break
             res.monitor("python_vs_rust")
             if roundtrip_every and (i + 1) % roundtrip_every == 0:
                 # Python snapshot -> fresh
